@@ -1642,6 +1642,67 @@ theorem C09_write_read_enum {F} (ops : FloatOps F) (cfg : LexCfg) (lookup : Int 
     simp only [attrWrite, hname]; simp
   exact ⟨hw, by rw [hw]; exact C09_accept_enum ops cfg lookup k hk nullable name sp rest d i hne hpw hfind hset hsp hd⟩
 
+/-- entity reference, representability guard: `#` and a digit string of *any* length whose value does not fit the library's
+    `int` raises an error and leaves the attribute unset — it never resolves to an instance, whatever instances exist
+    (any configuration, any look-up) -/
+theorem C09_reject_ref_unrepresentable {F} (ops : FloatOps F) (cfg : LexCfg) (lookup : Int → RefLookup) (nullable : Bool)
+    (ds sp rest : List Byte) (d : Byte) (hne : ds ≠ []) (hds : ds.all isDigit = true)
+    (hbig : refRepresentable ((digitsVal ds 0 : Nat) : Int) = false)
+    (hsp : sp.all isSpace = true) (hd : d = 44 ∨ d = 41) :
+    ∃ r, attrRead ops cfg lookup .ref nullable (IStream.ofBytes (35 :: ds ++ sp ++ d :: rest)) = .ok r ∧
+      ¬ NoErr r.sev ∧ r.val = .unset ∧ r.s.right = d :: rest := by
+  have hdd : isDelim attrDelims d = true := by rcases hd with rfl | rfl <;> decide
+  have hdn : isSpace d = false := by rcases hd with rfl | rfl <;> decide
+  have hdg : isDigit d = false := by rcases hd with rfl | rfl <;> decide
+  obtain ⟨d0, du, rfl⟩ : ∃ d0 du, ds = d0 :: du := by
+    cases ds with
+    | nil => exact absurd rfl hne
+    | cons d0 du => exact ⟨d0, du, rfl⟩
+  have hd0 : isDigit d0 = true := by simp at hds; exact hds.1
+  have hgt : ((digitsVal (d0 :: du) 0 : Nat) : Int) > intMax := by
+    have hge : (0 : Int) ≤ ((digitsVal (d0 :: du) 0 : Nat) : Int) := Int.natCast_nonneg _
+    have : intMin ≤ 0 := by decide
+    simp only [refRepresentable, Bool.and_eq_false_iff, decide_eq_false_iff_not] at hbig
+    rcases hbig with h | h <;> omega
+  have hpre : (IStream.ofBytes (35 :: (d0 :: du) ++ sp ++ d :: rest)).ws =
+      { left := [], right := 35 :: d0 :: (du ++ (sp ++ d :: rest)) } := by
+    have := ws_good0 [] 35 (d0 :: (du ++ (sp ++ d :: rest))) true (by decide)
+    simpa [IStream.ofBytes] using this
+  have htok : isInteger (d0 :: du) = true := isInteger_unsigned _ hne hds
+  have hr : (sp ++ d :: rest) = [] ∨ ∃ c t, (sp ++ d :: rest) = c :: t ∧ isDigit c = false := by
+    right
+    cases sp with
+    | nil => exact ⟨d, rest, rfl, hdg⟩
+    | cons a sp' => exact ⟨a, sp' ++ d :: rest, rfl, space_not_digit (by simp at hsp; exact hsp.1)⟩
+  have hscan := scanInt_token longMin longMax [35] (d0 :: du) (sp ++ d :: rest) htok hr
+  have hss : splitSign (d0 :: du) = (false, d0 :: du) := splitSign_digits _ hne hds
+  have hden : denoteInteger (d0 :: du) = ((digitsVal (d0 :: du) 0 : Nat) : Int) := by simp [denoteInteger, hss]
+  rw [hss, hden] at hscan
+  simp only [Bool.false_eq_true, if_false, List.cons_append] at hscan
+  -- whichever way `in >> long` went, the value handed on exceeds INT_MAX
+  have hres : ∃ res, scanInt longMin longMax [35] (d0 :: (du ++ (sp ++ d :: rest))) = (res, (d0 :: du).reverse ++ [35], sp ++ d :: rest) ∧
+      res.value > intMax := by
+    by_cases hl : ((digitsVal (d0 :: du) 0 : Nat) : Int) > longMax
+    · simp only [hl, if_true] at hscan
+      exact ⟨_, hscan, by decide⟩
+    · simp only [hl, if_false] at hscan
+      exact ⟨_, hscan, hgt⟩
+  obtain ⟨res, hsc, hrv⟩ := hres
+  have hx := extractInt32_of_scan_hi [35] d0 (du ++ (sp ++ d :: rest)) res _ _ (digit_not_space hd0) hsc hrv
+  have hcri := cri_delim cfg ((d0 :: du).reverse ++ [35]) sp rest d true true
+    ((Sev.null).greater Sev.warning) hsp hdd hdn
+  have hrne : (sp ++ d :: rest).isEmpty = false := by cases sp <;> rfl
+  refine ⟨⟨Sev.null.greater Sev.warning, .unset,
+    { left := sp.reverse ++ ((d0 :: du).reverse ++ [35]), right := d :: rest }⟩, ?_, ?_, ?_, ?_⟩
+  · simp only [attrRead, hpre, peekC_good]
+    simp only [show ((35 : Byte) == 36 || (35 : Byte) == 44 || (35 : Byte) == 41) = false from by decide, Bool.false_eq_true, if_false,
+      readEntityRef, ws_good0 _ _ _ _ (show isSpace 35 = false from by decide), getChar_good _ _ _ (show isSpace 35 = false from by decide),
+      Option.getD_some, Option.isSome_some, Bool.and_true, beq_self_eq_true, Bool.true_or, if_true,
+      show ((35 : Byte) == 64) = false from by decide, refTail, hx, IStream.failed, Bool.true_or, hrne, hcri]
+  · simp [NoErr, Sev.greater, Sev.toInt]
+  · rfl
+  · rfl
+
 /-! ## the delimiter is never consumed, for any input (all kinds) -/
 
 /-- NUMBER: the delimiter is never consumed, for any input and any configuration -/
